@@ -95,7 +95,7 @@ func genMixedCase(p mixedParams) *rapid.Generator[Case] {
 				}
 				if p.FaultPct > 0 && len(st.Ops) >= 2 && rapid.IntRange(0, 99).Draw(t, "faulty") < p.FaultPct {
 					// an I/O error while writing record At (with Partial bytes of it written): the records before it stay on disk, uncommitted
-					st.Fault = &Fault{Kind: "write", At: rapid.IntRange(0, 3).Draw(t, "faultat"), Partial: rapid.SampledFrom([]int{0, 7, 43}).Draw(t, "faultpartial")}
+					st.Fault = &Fault{Kind: "write", At: rapid.IntRange(0, 3).Draw(t, "faultat"), Partial: rapid.SampledFrom([]int{0, 7, 43, 1 << 20}).Draw(t, "faultpartial")}
 				}
 				c.Steps = append(c.Steps, st)
 			}
